@@ -218,6 +218,8 @@ fn track_assign<'a>(expr: &ast::Expr<'a>, state: &mut AssignmentTracker<'a>) {
         ast::Expr::Var(var) => state.assign(var.id),
         ast::Expr::List(list) => list.items.iter().for_each(|x| track_assign(x, state)),
         ast::Expr::Tuple(tuple) => tuple.items.iter().for_each(|x| track_assign(x, state)),
+        // `ns.attr` as (part of) a target reads `ns`
+        ast::Expr::GetAttr(_) => tracker_visit_expr(expr, state),
         _ => {}
     }
 }
@@ -266,9 +268,6 @@ fn track_walk<'a>(node: &ast::Stmt<'a>, state: &mut AssignmentTracker<'a>) {
             // the value is evaluated before the target is bound, and
             // `set ns.attr = ...` reads `ns`.
             tracker_visit_expr(&stmt.expr, state);
-            if let ast::Expr::GetAttr(_) = stmt.target {
-                tracker_visit_expr(&stmt.target, state);
-            }
             track_assign(&stmt.target, state);
         }
         ast::Stmt::AutoEscape(stmt) => {
@@ -289,9 +288,6 @@ fn track_walk<'a>(node: &ast::Stmt<'a>, state: &mut AssignmentTracker<'a>) {
             stmt.body.iter().for_each(|x| track_walk(x, state));
             state.pop();
             tracker_visit_expr_opt(&stmt.filter, state);
-            if let ast::Expr::GetAttr(_) = stmt.target {
-                tracker_visit_expr(&stmt.target, state);
-            }
             track_assign(&stmt.target, state);
         }
         #[cfg(feature = "multi_template")]
